@@ -15,7 +15,7 @@ def KeyHTTPDomainMappingList : String := "tunnox:http_domain:mappings:list"
 def HTTPDomainMappingStatusActive : String := "active"
 def HTTPDomainMappingStatusInactive : String := "inactive"
 def HTTPDomainMappingStatusExpired : String := "expired"
-def HTTPDomainDeleteClaimTTL : Nat := 30
+def HTTPDomainDeleteClaimTTL : Nat := 30000000000
 end repos
 
 namespace coreerrors
